@@ -14,7 +14,7 @@ from mc.space import explore
 
 PROP = "C02"
 RULE = ("C01 space S1..S5; (i) bytes written by the implementation decoded by mc.refcodec (own msgpack subset, frames, ext-14 "
-        "sub-types, recomputed descriptor hash); (ii) the same records encoded by refcodec in 8 wire variants and decoded by "
+        "sub-types, recomputed descriptor hash); (ii) the same records encoded by refcodec in 9 wire variants and decoded by "
         "RecordStreamReader, judged against refcodec's own decoding of those bytes; (iii) frozen golden corpus. non-trivial = "
         "record accepted by constructors and not all-None")
 
@@ -27,6 +27,7 @@ VARIANTS = {
     "wide": {"wide": True},
     "repeatdesc": {"repeat_desc": True},
     "repeatheader": {"repeat_header": True},
+    "binnames": {"bin_names": True},
 }
 
 
